@@ -92,6 +92,9 @@ def c10step (_ : Unit) (op : String) (impl : String) : Unit × String :=
     | ["inc", x] => match hexToBytes x with
         | some bs => (both (G.resBytes (BlugeGen.C10.incrementBytes bs)) (bytesToHex (incBytes bs)), "ok")
         | none => ("bad-op", "na")
+    | ["incpc", x] => match hexToBytes x with
+        | some bs => (both (G.resBytes (BlugeGen.C10.incrementPrefixCoded bs)) (bytesToHex (incPC bs)), "ok")
+        | none => ("bad-op", "na")
     | ["rangeq", mn, mx, im, iM, vs] => match parse64 mn, parse64 mx with
         | some a, some b =>
             let incMin := im == "true"; let incMax := iM == "true"
